@@ -70,6 +70,43 @@ theorem lookup_returns_original (ops : List Op) (h : Heap) (src : Nat) (hs : src
   simp only [result, List.getD_eq_getElem?_getD] at this
   simp [step, this, result]
 
+/-- the operation edits object `id` -/
+def Op.edits (id : Nat) : Op → Prop
+  | .mutate j _ => j = id
+  | .lookup _ => False
+
+/-- **Private from each other.** A result the caller holds and does not edit itself keeps its contents whatever else
+    happens: later lookups (of the same or of other tables) and edits of *other* results — e.g. of a second result of the
+    same lookup taken right after it — never reach it. -/
+theorem held_result_stable (ops : List Op) (h : Heap) (id : Nat) (hid : id < h.objs.length)
+    (hno : ∀ op ∈ ops, ¬ op.edits id) :
+    (run ops h).objs.getD id [] = h.objs.getD id [] := by
+  induction ops generalizing h with
+  | nil => rfl
+  | cons op ops ih =>
+    simp only [run, List.foldl_cons]
+    have hstep : (step h op).objs.getD id [] = h.objs.getD id [] ∧ id < (step h op).objs.length := by
+      cases op with
+      | lookup s =>
+        simp only [step]
+        refine ⟨?_, by simp; omega⟩
+        simp [List.getD_eq_getElem?_getD, List.getElem?_append_left hid]
+      | mutate j f =>
+        have hj : j ≠ id := fun e => hno (.mutate j f) (by simp) e
+        simp only [step]
+        split
+        · refine ⟨?_, by simpa using hid⟩
+          simp only [List.getD_eq_getElem?_getD]
+          rw [List.getElem?_modify]
+          simp [hj]
+        · exact ⟨rfl, hid⟩
+    have := ih (step h op) hstep.2 (fun o ho => hno o (by simp [ho]))
+    simp only [run] at this
+    rw [this, hstep.1]
+
+/-- two results of the same lookup, the first one edited: the second one still holds the original -/
+example : (run [.lookup 0, .lookup 0, .mutate 1 (fun _ => [])] ⟨[[1, 2, 3]], 1⟩).objs.getD 2 [] = [1, 2, 3] := by decide
+
 /-- non-vacuity: the caller empties and overwrites what it got; the next lookup is unaffected -/
 example : result (run [.lookup 0, .mutate 1 (fun _ => []), .lookup 0, .mutate 2 (fun l => 9 :: l), .mutate 0 (fun _ => [])]
     ⟨[[1, 2, 3]], 1⟩) 0 = [1, 2, 3] := by decide
